@@ -11,7 +11,7 @@ import (
 
 func init() {
 	registerProperty(&Property{
-		ID: "C18",
+		ID:          "C18",
 		Explanation: "Decides structural necessary conditions of constructor type checking: (R1) every typecheck.Panic/Panicf in an exported constructor of package bigslice passes the call depth that attributes the error to the constructor's caller (1 in the constructor, 2 inside a closure it invokes, 2 in FuncValue.typecheck which is called from Invocation/applyValue); (R2) each constructor calls the schema checks its operator needs (slicefunc.Of, typecheck.CanApply/Equal/Devectorize, canMakeCombiningFrame, frame.CanHash/CanCompare, canMakeAccumulatorForKey), the outcome of each controls a branch whose failing edge panics, and every return of a slice is reached only through the passing edges; (R3) canMakeAccumulatorForKey and makeAccumulator accept the same kinds and makeAccumulator returns nil only in its default arm; (R4) invocation arguments are type-checked before the Func is called or the invocation created; (R5) a column of a function's or slice's type is inspected (Out(k), constant k) only after the arity was bounded above k on that path; (R6) an accumulator selected by the key's Kind must not assert the predeclared type of that kind on the key column (a named key type of the same kind passes the constructor and panics in the first Accumulate). Not decided: that every schema that fits is accepted, and the types of the returned slice (needs the cross product, i.e. execution).",
 		Rules: []Rule{
 			{ID: "C18-R1", Doc: "typecheck errors are attributed to the caller", Run: c18r1},
@@ -100,15 +100,15 @@ func c18r1(c *RC) {
 
 // schema checks: callee -> short name
 var c18checks = map[string]string{
-	"slicefunc.Of":                  "Of",
-	"typecheck.CanApply":            "CanApply",
-	"typecheck.Equal":               "Equal",
-	"typecheck.Devectorize":         "Devectorize",
-	"typecheck.Slices":              "Slices",
-	".canMakeCombiningFrame":        "canMakeCombiningFrame",
-	"frame.CanHash":                 "CanHash",
-	"frame.CanCompare":              "CanCompare",
-	".canMakeAccumulatorForKey":     "canMakeAccumulatorForKey",
+	"slicefunc.Of":              "Of",
+	"typecheck.CanApply":        "CanApply",
+	"typecheck.Equal":           "Equal",
+	"typecheck.Devectorize":     "Devectorize",
+	"typecheck.Slices":          "Slices",
+	".canMakeCombiningFrame":    "canMakeCombiningFrame",
+	"frame.CanHash":             "CanHash",
+	"frame.CanCompare":          "CanCompare",
+	".canMakeAccumulatorForKey": "canMakeAccumulatorForKey",
 }
 
 // required checks per constructor (who-must-call), from the documented schemas.
